@@ -33,10 +33,30 @@ def showComment : Option VBytes → String
   | none => "K:none"
   | some c => s!"K:{hex c}"
 
-/-- Driver state: the line reader, the items so far (reversed), and how to annotate an item. -/
+/-- Driver state: the line reader, the items so far (reversed), and — for `ls=1` — the position of
+the line source: `doff` bytes have been delivered, `dsuf` is the data from there on. -/
 structure DS where
   lr : LR
   items : List String := []
+  dsuf : VBytes := []
+  doff : Nat := 0
+
+/-- How items are annotated: `ls` (one line per read: every item carries `@<delivered>`) and the
+reader's chunk size (`0` = no line is longer than a read request). -/
+structure Ann where
+  ls : Bool
+  chunk : Nat
+
+/-- The line source hands out one line per read, a line longer than the chunk in chunk-sized pieces
+(every read request of the reader has the size of the chunk).  From `i` delivered bytes (a piece
+boundary, `pc` = bytes of the current piece so far) to the first boundary at or beyond `peeked`:
+the reader performs one read per refill and refills only when a demanded byte is missing. -/
+def deliveredGo (chunk peeked : Nat) : VBytes → Nat → Nat → VBytes × Nat
+  | [], i, _ => ([], i)
+  | b :: bs, i, pc =>
+    if b == 10 || pc + 1 == chunk then
+      if i + 1 ≥ peeked then (bs, i + 1) else deliveredGo chunk peeked bs (i + 1) 0
+    else deliveredGo chunk peeked bs (i + 1) (pc + 1)
 
 abbrev DM := ExceptT String (StateM DS)
 
@@ -47,11 +67,18 @@ def step {α : Type} (act : PM α) : DM α := do
   | (.ok a, lr') => set { ds with lr := lr' }; pure a
   | (.error e, lr') => set { ds with lr := lr' }; throw (showPErr e)
 
-def emit (at_ : LR → String) (s : String) : DM Unit :=
-  modify fun ds => { ds with items := (s ++ at_ ds.lr) :: ds.items }
+def emit (at_ : Ann) (s : String) : DM Unit :=
+  modify fun ds =>
+    if at_.ls then
+      -- `peeked` only grows, so the boundary found for the previous item is a lower bound
+      let peeked := ds.lr.v.peeked
+      let (suf, off) := if peeked ≤ ds.doff then (ds.dsuf, ds.doff)
+                        else deliveredGo at_.chunk peeked ds.dsuf ds.doff 0
+      { ds with items := (s ++ s!"@{off}") :: ds.items, dsuf := suf, doff := off }
+    else { ds with items := s :: ds.items }
 
 /-- `while let Some(x) = s.next()? { items.push(x) }` -/
-def drain {α : Type} (at_ : LR → String) (next : St → PM (Option α × St)) (sh : α → String) :
+def drain {α : Type} (at_ : Ann) (next : St → PM (Option α × St)) (sh : α → String) :
     Nat → St → DM St
   | 0, _ => throw "E:panic"
   | f + 1, s => do
@@ -59,7 +86,7 @@ def drain {α : Type} (at_ : LR → String) (next : St → PM (Option α × St))
     | (some a, s') => emit at_ (sh a); drain at_ next sh f s'
     | (none, s') => pure s'
 
-def drainSymbols (at_ : LR → String) (p : Parser) : Nat → DM Unit
+def drainSymbols (at_ : Ann) (p : Parser) : Nat → DM Unit
   | 0 => throw "E:panic"
   | f + 1 => do
     match ← step (nextSymbol p) with
@@ -89,7 +116,7 @@ def orderedItems (a : OrderedAig) : List String :=
     a.symbols.map showSymbol ++ [showComment a.comment]
 
 /-- The whole drive in streaming (`stream = true`) or skipping mode. -/
-def driveStream (bin : Bool) (l : LitTy) (stream : Bool) (at_ : LR → String) : DM Unit := do
+def driveStream (bin : Bool) (l : LitTy) (stream : Bool) (at_ : Ann) : DM Unit := do
   let p ← step (Parser.new bin l)
   emit at_ (showHeader p.header)
   let dr {α : Type} (next : St → PM (Option α × St)) (sh : α → String) (s : St) : DM St :=
@@ -118,7 +145,7 @@ def driveStream (bin : Bool) (l : LitTy) (stream : Bool) (at_ : LR → String) :
   let c ← step (comment p)
   emit at_ (showComment c)
 
-def driveParse (bin : Bool) (l : LitTy) (at_ : LR → String) : DM Unit := do
+def driveParse (bin : Bool) (l : LitTy) (at_ : Ann) : DM Unit := do
   if bin then
     let a ← step (parseAig l)
     emit at_ "P"
@@ -127,6 +154,25 @@ def driveParse (bin : Bool) (l : LitTy) (at_ : LR → String) : DM Unit := do
     let a ← step (parseAag l)
     emit at_ "P"
     (aigItems a).forM (emit at_)
+
+def hex16 (n : UInt64) : String :=
+  String.ofList ((List.range 16).reverse.map fun i => hexDigit ((n.toNat / 16 ^ i) % 16))
+
+def fnv (s : String) : UInt64 :=
+  s.toUTF8.foldl (fun h b => (h ^^^ b.toUInt64) * 0x100000001b3) 0xcbf29ce484222325
+
+/-- At most 200 bytes of an item (items are ASCII). -/
+def clip (s : String) : String :=
+  if s.utf8ByteSize ≤ 200 then s else s!"{s.take 200}..({s.utf8ByteSize} bytes)"
+
+/-- The observation; longer than 64 KiB: `D:<items>:<bytes>:<fnv-1a 64>|<first>|<last>|<outcome>`
+(same formula as `eng_aiger.rs::digest`). -/
+def digest (items : List String) (fin : String) : String :=
+  let text := "|".intercalate (items ++ [fin])
+  if text.utf8ByteSize ≤ 65536 then text else
+  let first := match items.head? with | some x => clip x | none => "-"
+  let last := match items.getLast? with | some x => clip x | none => "-"
+  s!"D:{items.length}:{text.utf8ByteSize}:{hex16 (fnv text)}|{first}|{last}|{fin}"
 
 /-- `OrderedAig` that `ascii::write_ordered_aig` would have been given to produce `a`. -/
 def toOrdered (a : Aig) : OrderedAig :=
@@ -165,12 +211,17 @@ def runAigerCase (line : String) : String × String :=
   let mode := field fs "mode"
   let ls := field fs "ls" == "1"
   let full := dataField (field fs "d")
+  -- scale cases: `cut=<n>` keeps the first `n` bytes, `post=<data field>` is appended after the cut
+  let full := match (field fs "cut").toNat? with
+    | some n => full.take n
+    | none => full
+  let full := if field fs "post" == "" then full else full ++ dataField (field fs "post")
   let (data, fault) := match (field fs "k").toNat? with
     | some k => (full.take k, true)
     | none => (full, false)
-  let at_ (lr : LR) : String := if ls then s!"@{lineDelivered data lr.v.peeked}" else ""
+  let at_ : Ann := { ls, chunk := fieldNat fs "c" }
   let act := if mode == "parse" then driveParse bin l at_ else driveStream bin l (mode == "stream") at_
-  let (r, ds) := (act.run).run { lr := LR.init data fault }
+  let (r, ds) := (act.run).run { lr := LR.init data fault, dsuf := data }
   let fin := match r with
     | .ok () => "END"
     | .error e => e
@@ -179,7 +230,7 @@ def runAigerCase (line : String) : String × String :=
   let nsyms := (items.filter (·.startsWith "S:")).length
   let ngates := (items.filter (·.startsWith "A:")).length
   let cmt := items.any (fun s => s.startsWith "K:" && !s.startsWith "K:none")
-  ("|".intercalate (items ++ [fin]) ++ wchk,
+  (digest items fin ++ wchk,
    s!"fmt={fmtS} ty={field fs "ty"} mode={mode} items={items.length} gates={ngates} syms={nsyms} cmt={b2s cmt} fin={fin.take 5} fault={b2s fault} ls={b2s ls} w={field fs "w"}")
 
 end Driver
